@@ -355,11 +355,29 @@ def run_case(case):
     hobj, form = header_form(rng, h)
     wit = {"header": {k: h[k] for k in sorted(h)[:60]}, "form": form}
     COL.sample({"family": fam, "ref": ref, "form": form, "crval": [h["crval1"], h["crval2"]], "crpix": [h["crpix1"], h["crpix2"]]}, limit=8)
+    # several objects of different projection kinds live side by side (one built before, the others after the object
+    # under test): state must not leak between objects
+    okinds = [k for k in ("tan", "tpv", "sip", "tpv-const") if not fam.startswith(k[:3])]
+    rng.shuffle(okinds)
+    others = []
+    hb = make_header(rng, okinds[0], "any")
+    ob, e = probe.attempt(wcsutil.WCS, dict(hb))
+    if e is None:
+        others.append((ob, hb))
     w, e = probe.attempt(wcsutil.WCS, hobj)
     if e is not None:
         key = "sip/header-without-inverse-order-rejected" if fam == "sip-noinv" and "order" in str(e) else None
         COL.violation("C10.forward", "WCS(%s header) raised %s: %s" % (form, type(e).__name__, str(e)[:140]), wit, key=key)
         return
+    for ok_ in okinds[1:3]:
+        ha = make_header(rng, ok_, "any")
+        oa, e = probe.attempt(wcsutil.WCS, dict(ha))
+        if e is None:
+            others.append((oa, ha))
+            # use it once, inverse included, so that lazily computed state exists
+            xo, yo = positions(rng, ha, 3)
+            lo_, la_ = F.image2sky(ha, xo, yo)
+            probe.attempt(oa.sky2image, np.asarray(lo_, dtype="f8"), np.asarray(la_, dtype="f8"), find=False)
     kind = F.kind(h)
     # ---- the reference pixel maps to (CRVAL1 mod 360, CRVAL2), longitude in [0, 360)
     for dist in ([True, False] if fam != "tpv-const" else [False]):
@@ -382,6 +400,15 @@ def run_case(case):
     # ---- random walk of calls on the one object (judged online); scalar vs array agreement
     nsteps = int(rng.integers(2, 13))
     for step in range(nsteps):
+        if others and rng.random() < .3:
+            # a call on one of the other live objects in between (judged online like every other call)
+            o2, h2 = others[int(rng.integers(0, len(others)))]
+            x2, y2 = positions(rng, h2, 3)
+            if rng.random() < .5:
+                probe.attempt(o2.image2sky, x2, y2)
+            else:
+                l2, b2 = F.image2sky(h2, x2, y2)
+                probe.attempt(o2.sky2image, np.asarray(l2, dtype="f8"), np.asarray(b2, dtype="f8"), find=bool(rng.random() < .5))
         op = ["image2sky", "image2sky", "sky2image", "sky2image", "sky2image", "get_jacobian"][int(rng.integers(0, 6))]
         n = int(rng.choice([1, 3, 12]))
         x, y = positions(rng, h, n)
@@ -455,3 +482,5 @@ def run_case(case):
     finally:
         REPLAYING[0] = False
         OBJ.pop(id(w), None)
+        for o2, _ in others:
+            OBJ.pop(id(o2), None)
